@@ -91,7 +91,7 @@ func (l List) Get(i int) Value {
 	}
 
 	size := l.table.DataSize()
-	if end > int(size) {
+	if end > int(size) || start > end {
 		return Value{}
 	}
 	return l.bytes[start:end]
@@ -105,7 +105,7 @@ func (l List) GetBytes(i int) []byte {
 	}
 
 	size := l.table.DataSize()
-	if end > int(size) {
+	if end > int(size) || start > end {
 		return nil
 	}
 
